@@ -188,6 +188,9 @@ class Observer:
     def body(self, d, var, coord, point):
         pass
 
+    def after_body(self, d, var, coord, point):
+        pass
+
     def leaf(self, point, factors, prod, updated):
         pass
 
@@ -258,6 +261,7 @@ def execute(spec, tensors, Z, lvars, zl, observer=None, nested_and=True):
                 nxt[n] = val
             obs.body(d, v, c, point + [c])
             level(d + 1, nxt, z_ref, point + [c])
+            obs.after_body(d, v, c, point + [c])
         obs.level_end(d, v, point)
 
     cur0 = {n: tensors[n].getRoot() for n in names}
